@@ -9,15 +9,23 @@ import (
 // shows a violation of the same class. Because choice 0 is always the boring alternative,
 // zeroing removes faults and reorderings. Bounded by a wall-clock budget.
 func Shrink(ck *Check, tier string, seed, index uint64, choices []uint32, class string, budget time.Duration) (best []uint32, tries int) {
-	deadline := time.Now().Add(budget)
-	best = append([]uint32(nil), choices...)
-	fails := func(cand []uint32) bool {
-		tries++
+	return ShrinkWith(choices, func(cand []uint32) bool {
 		r, herr := ReplayRun(ck, tier, seed, index, cand, false)
 		if herr != "" {
 			return false
 		}
 		return r.HasClass(class)
+	}, budget)
+}
+
+// ShrinkWith is Shrink with a caller-supplied failure test (process crashes are tested in
+// fresh OS processes).
+func ShrinkWith(choices []uint32, test func(cand []uint32) bool, budget time.Duration) (best []uint32, tries int) {
+	deadline := time.Now().Add(budget)
+	best = append([]uint32(nil), choices...)
+	fails := func(cand []uint32) bool {
+		tries++
+		return test(cand)
 	}
 	expired := func() bool { return time.Now().After(deadline) }
 
